@@ -86,7 +86,7 @@ fn main() {
         std::process::exit(2);
     }
     let mut c = Check::new("C10", args.tier, "exploration");
-    c.rule = "complete product of transport operations x version x queue index x queue size x address triples x feature words x status / interrupt-status values x device lag, all ordered pairs of a reduced operation list, all pairs of per-queue operations on the same queue with a device reset in between, and all probe headers (magic flips x versions x device ids x region sizes); every case run twice (plain and through SomeTransport); distinct = distinct register traces".into();
+    c.rule = "complete product of transport operations x version x queue index x queue size x address triples x feature words (and all ordered pairs of 8 feature words written back to back) x status / interrupt-status values x device lag, all ordered pairs of a reduced operation list, all pairs of per-queue operations on the same queue with a device reset in between, and all probe headers (magic flips x versions x device ids x region sizes); every case run twice (plain and through SomeTransport); distinct = distinct register traces".into();
     c.assumptions = vec!["reading ConfigGeneration (0xfc) on a legacy device is tolerated (undefined for version 1, reads as 0)".into()];
     let thorough = args.tier == Tier::Thorough;
     let mut acc = Acc { c: &mut c, evals: 0, sigs: HashSet::new(), shown: 0 };
@@ -99,6 +99,14 @@ fn main() {
             env.offered = f;
             acc.run(&part, &env, &[Op::ReadFeatures]);
             acc.run(&part, &env, &[Op::WriteFeatures(f)]);
+        }
+        // The feature word is written twice without a reset in between: the device must end up
+        // with exactly the second word, whatever the first one left in either half.
+        env.offered = u64::MAX;
+        for f1 in feature_words().into_iter().take(8) {
+            for f2 in feature_words().into_iter().take(8) {
+                acc.run(&part, &env, &[Op::WriteFeatures(f1), Op::WriteFeatures(f2)]);
+            }
         }
         env = Env { version, ..Default::default() };
         for q in qs {
@@ -152,7 +160,7 @@ fn main() {
         // All ordered pairs of a reduced operation list (selector discipline across calls).
         let part_p = format!("mmio-pairs:version={}", version);
         let (d, dr, de) = if version == 1 { legacy_triples(8)[2] } else { modern_triples()[2] };
-        let mut small: Vec<Op> = vec![Op::ReadFeatures, Op::WriteFeatures(0x1_0000_0001), Op::GetStatus, Op::SetStatus(3), Op::AckInterrupt, Op::ReadConfigGen, Op::SetGuestPageSize(4096)];
+        let mut small: Vec<Op> = vec![Op::ReadFeatures, Op::WriteFeatures(0x1_0000_0001), Op::WriteFeatures(0x21), Op::GetStatus, Op::SetStatus(3), Op::AckInterrupt, Op::ReadConfigGen, Op::SetGuestPageSize(4096)];
         for q in [0u16, 2] {
             small.push(Op::MaxQueueSize(q));
             small.push(Op::Notify(q));
@@ -219,8 +227,18 @@ fn main() {
     for b in 0..32 {
         magics.push(0x7472_6976 ^ (1 << b));
     }
+    // Device ids: every small value, every single-bit value, and every known id with bits set
+    // above the low byte (an id is a 32-bit register: nothing but the exact value is known).
     let mut ids: Vec<u32> = (0..64).collect();
     ids.push(u32::MAX);
+    for b in 6..32 {
+        ids.push(1 << b);
+    }
+    for k in (1u32..=25).filter(|k| c10::known_device_id(*k)) {
+        for hi in [0x100u32, 0x1_0000, 0x8000_0000, 0xffff_ff00] {
+            ids.push(hi | k);
+        }
+    }
     let mut pe = 0u64;
     let mut accepted = 0u64;
     let mut classes = HashSet::new();
@@ -241,6 +259,6 @@ fn main() {
             }
         }
     }
-    c.add_sweep("mmio-probe: 35 magic values x 5 versions x 65 device ids x 5 region sizes", pe, classes.len() as u64, true, J::obj().set("accepted", J::i(accepted)));
+    c.add_sweep(&format!("mmio-probe: 35 magic values x 5 versions x {} device ids (0..63, single bits, known ids with high bits set, all-ones) x 5 region sizes", ids.len()), pe, classes.len() as u64, true, J::obj().set("accepted", J::i(accepted)));
     c.finish();
 }
